@@ -13,7 +13,7 @@
 
    Events: Reset{tr, segs[[addr,len,w]], src[size,salt], dirty0}  Op{o, op, n, x, c, res, ret, data,
    out, all[[id,avail,done]], diff[[addr,len,v]], dirty[[page,cnt]], msgs[[[v,len]]], fpos, fdiff,
-   spos, canary, new}  End{diff, dirty, msgs}  Crash{signal, op};  containers (tr = "fvs"):
+   spos, canary, new}  End{diff, dirty, msgs}  New{o, what, res, err}  Abort{op}  Crash{signal, op};  containers (tr = "fvs"):
    Op{o, op, a, n, v, res, ret, out, win, new, newwin, content, canary}.
    Byte strings are ramps <<v, len>> (Transport.tla). *)
 EXTENDS Transport, Json, IOUtils, TLC, Integers
@@ -96,12 +96,12 @@ JudgeMove(r) ==
       usable == x.k # "F" \/ x.spl \/ x.done = 0
       target == TakeR(x.rem, d)
       \* source of a writer operation as runs of source identities
-      fstart == IF op = "write_from_at" THEN r.x ELSE fp
+      fstart == IF op \in AtOps THEN r.x ELSE fp
       source == IF op \in FileSrcOps THEN << <<fstart + src[2], d>> >> ELSE TakeR(r.data, d)
       expdiff == ExpDiff(x.rem, source)
       direct == x.k = "F" /\ ~x.spl
       msgs == IF Has(r, "msgs") THEN NonEmptyMsgs(r.msgs) ELSE <<>>
-      sstart == IF op = "read_to_at" THEN r.x ELSE sp
+      sstart == IF op \in AtOps THEN r.x ELSE sp
       nfp == IF op \in {"write_from", "write_all_from"} THEN fp + d ELSE fp
       nsp == IF op \in {"read_to", "read_exact_to"} THEN sp + d ELSE sp
       nob == [ob EXCEPT ![o] = [x EXCEPT !.rem = DropR(x.rem, d), !.done = x.done + d,
@@ -116,7 +116,8 @@ JudgeMove(r) ==
       writer ==
         (IF op \in FileSrcOps /\ fstart + d > src[1] /\ d > 0 THEN Vi("bytes", <<"beyond-eof", fstart, d, src[1]>>) ELSE {}) \cup
         (IF r.diff # expdiff /\ ~(direct /\ op \notin FileSrcOps /\ r.diff = <<>>)
-           THEN Vi("placed", <<r.diff, expdiff>>) ELSE {}) \cup
+           THEN Vi("placed" \o (IF x.k # "F" THEN "" ELSE IF x.done > 0 THEN "-fusedev-after-data" ELSE "-fusedev-empty"),
+                   <<r.diff, expdiff>>) ELSE {}) \cup
         (IF x.k = "F" /\ msgs # (IF direct /\ d > 0 THEN <<Ramps(source)>> ELSE <<>>)
            THEN Vi("fd", <<msgs, IF direct /\ d > 0 THEN <<Ramps(source)>> ELSE <<>> >>) ELSE {}) \cup
         (IF r.fpos # nfp THEN Vi("filepos", <<r.fpos, nfp>>) ELSE {}) \cup
@@ -126,7 +127,9 @@ JudgeMove(r) ==
              \cup (IF op \in ReaderOps THEN reader ELSE writer) \cup CounterViols(r, nob)]
 
 JudgeTransport(r) ==
-  LET j == IF r.op = "split_at" THEN JudgeSplit(r) ELSE IF r.op = "commit" THEN JudgeCommit(r) ELSE JudgeMove(r) IN
+  LET j == IF r.res = "noobj"      \* the scenario names an object the code never produced (an earlier split_at went wrong)
+           THEN [ob |-> ob, fp |-> fp, sp |-> sp, viols |-> Vi("no-object", r.o)]
+           ELSE IF r.op = "split_at" THEN JudgeSplit(r) ELSE IF r.op \in CommitOps THEN JudgeCommit(r) ELSE JudgeMove(r) IN
   [j EXCEPT !.viols = @ \cup (IF r.canary THEN {} ELSE Vi("oob", r.diff))]
 
 (* ------------------------------- containers (PlainView) ------------------------------- *)
@@ -243,6 +246,13 @@ Step ==
      CASE r.e = "Reset" -> Reset(r)
        [] r.e = "Op" -> OpStep(r)
        [] r.e = "End" -> EndStep(r)
+       [] r.e = "New" ->        \* constructors over a well-formed chain inside mapped memory must succeed
+            /\ TRUE = (r.res = "ok" \/ Viol("C04|new|construct-failed", <<r.what, r.res, r.err>>))
+            /\ broken' = (broken \/ r.res # "ok")
+            /\ UNCHANGED <<tr, ob, fp, sp, src, cont, dirt, dirty0, modBy, dirtyBy>>
+       [] r.e = "Abort" ->      \* the driver itself could not go on with what the code under test handed back
+            /\ TRUE = Viol("C04|" \o r.op \o "|harness-aborted", r.seg)
+            /\ UNCHANGED <<tr, ob, fp, sp, src, cont, broken, dirt, dirty0, modBy, dirtyBy>>
        [] r.e = "Crash" ->      \* the process running the code under test died (signal): memory safety is part of C04
             /\ TRUE = Viol("C04|" \o r.op \o "|crash", r.signal)
             /\ UNCHANGED <<tr, ob, fp, sp, src, cont, broken, dirt, dirty0, modBy, dirtyBy>>
